@@ -1246,6 +1246,12 @@ def _replay_simple(torch, o3, S, key, rep):
             c = 1.0 if m.act._is_id else float(m.act.cst)
             x = torch.tensor(rep["x"], dtype=torch.float64)
             return float((m(x) - c * x).abs().max()), 1e-10
+        if key == "SO3Activation/identity" and "resolution" in rep:
+            from e3nn.nn import SO3Activation
+            m = SO3Activation(rep["lmax"], rep["lmax"], (lambda x: x), rep["resolution"], aspect_ratio=rep["aspect"])
+            c = 1.0 if m.act._is_id else float(m.act.cst)
+            x = torch.randn(2, m.grid_in.D.shape[-1], generator=torch.Generator().manual_seed(0))
+            return float((m(x) - c * x).abs().max()), 1e-10
         if key == "SO3Grid/roundtrip-bandlimited" and rep.get("config"):
             cfg = rep["config"]
             g = o3.SO3Grid(cfg["lmax"], cfg["resolution"], aspect_ratio=cfg["aspect"])
